@@ -1,28 +1,10 @@
-//! Derives `cfg`s from the harness feature set so that the binding can follow mmtk-core's own
-//! feature-dependent trait members (a dependent crate cannot test `cfg(feature = "mmtk/..")`).
-//!   has_vo_bit   <- any feature set that enables mmtk/vo_bit
-//!   has_pinning  <- any feature set that enables mmtk/object_pinning
-//!   hdr_specs    <- feature `hdr_specs` or env VERIF_HDR_SPECS=1
-//!   unified_ref  <- feature `unified_ref` or env VERIF_UNIFIED_REF=1
+//! Derives `cfg(has_vo_bit)` from the harness feature set (a dependent crate cannot test
+//! `cfg(feature = "mmtk/vo_bit")`): set for every feature set that enables mmtk/vo_bit.
+//! (Pinning / unified_ref / hdr_specs are plain harness features: `has_pinning`, `unified_ref`, `hdr_specs`.)
 fn main() {
     let has = |f: &str| std::env::var_os(format!("CARGO_FEATURE_{}", f.to_uppercase())).is_some();
-    let env1 = |v: &str| std::env::var(v).map(|s| s == "1").unwrap_or(false);
     println!("cargo:rustc-check-cfg=cfg(has_vo_bit)");
-    println!("cargo:rustc-check-cfg=cfg(has_pinning)");
-    println!("cargo:rustc-check-cfg=cfg(hdr_specs)");
-    println!("cargo:rustc-check-cfg=cfg(unified_ref)");
-    println!("cargo:rerun-if-env-changed=VERIF_HDR_SPECS");
-    println!("cargo:rerun-if-env-changed=VERIF_UNIFIED_REF");
-    if ["fs_main", "fs_ms_nonmoving", "fs_imm_nonmoving", "fs_small", "vo_bit"].iter().any(|f| has(f)) {
+    if ["fs_main", "fs_ms_nonmoving", "fs_imm_nonmoving", "fs_small"].iter().any(|f| has(f)) {
         println!("cargo:rustc-cfg=has_vo_bit");
-    }
-    if ["fs_main", "fs_ms_nonmoving", "object_pinning"].iter().any(|f| has(f)) {
-        println!("cargo:rustc-cfg=has_pinning");
-    }
-    if has("hdr_specs") || env1("VERIF_HDR_SPECS") {
-        println!("cargo:rustc-cfg=hdr_specs");
-    }
-    if has("unified_ref") || env1("VERIF_UNIFIED_REF") {
-        println!("cargo:rustc-cfg=unified_ref");
     }
 }
